@@ -188,6 +188,42 @@ pub proof fn lemma_share_bounds(a: real, q: real, t: real)
 
 
 
+// ---------- sums over index ranges ----------
+pub open spec fn isum(n: int, f: spec_fn(int) -> real) -> real
+    decreases n
+{
+    if n <= 0 { 0real } else { isum(n - 1, f) + f(n - 1) }
+}
+pub proof fn isum_ext(n: int, f: spec_fn(int) -> real, g: spec_fn(int) -> real)
+    requires forall|k: int| 0 <= k < n ==> #[trigger] f(k) == g(k)
+    ensures isum(n, f) == isum(n, g)
+    decreases n
+{
+    if n > 0 { isum_ext(n - 1, f, g); }
+}
+/// changing one term changes the sum by the difference
+pub proof fn isum_update(n: int, f: spec_fn(int) -> real, g: spec_fn(int) -> real, j: int, dl: real)
+    requires 0 <= j < n, g(j) == f(j) + dl, forall|k: int| 0 <= k < n && k != j ==> #[trigger] f(k) == g(k)
+    ensures isum(n, g) == isum(n, f) + dl
+    decreases n
+{
+    if n - 1 == j { isum_ext(n - 1, f, g); } else { isum_update(n - 1, f, g, j, dl); }
+}
+pub proof fn isum_zero(n: int, f: spec_fn(int) -> real)
+    requires forall|k: int| 0 <= k < n ==> #[trigger] f(k) == 0real
+    ensures isum(n, f) == 0real
+    decreases n
+{
+    if n > 0 { isum_zero(n - 1, f); }
+}
+pub proof fn rsum_zero<T>(s: Seq<T>, f: spec_fn(T) -> real)
+    requires forall|i: int| 0 <= i < s.len() ==> f(#[trigger] s[i]) == 0real
+    ensures rsum(s, f) == 0real
+    decreases s.len()
+{
+    if s.len() > 0 { rsum_zero(s.drop_last(), f); }
+}
+
 // ---------- counting ----------
 pub open spec fn cnt<T>(s: Seq<T>, p: spec_fn(T) -> bool) -> nat
     decreases s.len()
